@@ -157,7 +157,14 @@ func (propC06) Gen(r *Rng, tier string) *World {
 	w.Cfg.DirStyle = r.Intn(6)
 	w.Cfg.ViaAPI = r.P(0.4)
 	m := r.Intn(16)
-	w.Masks = []int{m, 15 - m, []int{0, 1, 15}[r.Intn(3)]}
+	w.Masks = []int{m, []int{15 - m, 0, 15}[r.Intn(3)]}
+	// two of the four event modes per world (many diverse worlds beat few exhaustive ones)
+	ev := []string{"none", "report", "debug", "both"}
+	i, j := r.Intn(4), r.Intn(3)
+	if j >= i {
+		j++
+	}
+	w.Extra = map[string]string{"events": ev[i] + "," + ev[j]}
 	nb := r.Range(2, 4)
 	for i := 0; i < nb; i++ {
 		p := Plan{Bind: g.Binding()}
@@ -194,6 +201,15 @@ func (propC06) Run(w *World, st *Stats) *Violation {
 		masks = []int{w.Cfg.OptMask}
 	}
 	events := []string{"", "report", "debug", "both"}
+	if e, ok := w.Extra["events"]; ok {
+		events = nil
+		for _, x := range strings.Split(e, ",") {
+			if x == "none" {
+				x = ""
+			}
+			events = append(events, x)
+		}
+	}
 	if w.Cfg.Event != "" {
 		events = []string{w.Cfg.Event}
 	}
